@@ -558,10 +558,36 @@ class _InlineNewHelpers(_InlineMethods):
     """expand, in every function of a module, the calls of same-module functions and same-class methods that are not in the table of known
     functions (extract-function refactorings)"""
 
-    def __init__(self, tree, known):
+    def __init__(self, tree, known, foreign=None, modname='', is_pkg=False):
         _InlineMethods.__init__(self, tree)
         self.known = known
         self.hcount = [0]
+        self.foreign = foreign or {}
+        self.modname = modname
+        self.is_pkg = is_pkg
+        self.imported_new = {}      # local name -> (function node, its module, its module tree)
+        self.module_aliases = {}    # local name -> dotted module
+        self.synthetic_imports = set()
+        if self.foreign:
+            fmods = {m for (m, _n) in self.foreign}
+            for x in ast.walk(tree):
+                if isinstance(x, ast.ImportFrom):
+                    base = x.module or ''
+                    if x.level:
+                        parts = modname.split('.')
+                        if not is_pkg:
+                            parts = parts[:-1]
+                        parts = parts[:len(parts) - x.level + 1]
+                        base = '.'.join(parts + ([x.module] if x.module else []))
+                    for a in x.names:
+                        if (base, a.name) in self.foreign and base != modname:
+                            self.imported_new[a.asname or a.name] = self.foreign[(base, a.name)] + (base,)
+                        elif (base + '.' + a.name) in fmods:
+                            self.module_aliases[a.asname or a.name] = base + '.' + a.name
+                elif isinstance(x, ast.Import):
+                    for a in x.names:
+                        if a.name in fmods and a.asname:
+                            self.module_aliases[a.asname] = a.name
 
     def run(self):
         self.module_funcs = {n.name: n for n in self.tree.body if isinstance(n, ast.FunctionDef)}
@@ -572,7 +598,7 @@ class _InlineNewHelpers(_InlineMethods):
             for m in cls.body:
                 if isinstance(m, ast.FunctionDef) and (cls.name + '.' + m.name) not in self.known and cls.name in {k.split('.')[0] for k in self.known if '.' in k}:
                     new_methods.setdefault(cls.name, {})[m.name] = m
-        if not self.new_funcs and not new_methods:
+        if not self.new_funcs and not new_methods and not self.imported_new and not self.module_aliases:
             return False
         self.touched = {}
         self.expanded = set()
@@ -806,6 +832,11 @@ class _InlineNewHelpers(_InlineMethods):
         """the new helper a call refers to: (node, has_recv) or None"""
         if isinstance(call.func, ast.Name) and call.func.id in self.new_funcs:
             return self.new_funcs[call.func.id], False
+        if isinstance(call.func, ast.Name) and call.func.id in self.imported_new and call.func.id not in self.module_funcs:
+            return self.imported_new[call.func.id][0], False
+        if isinstance(call.func, ast.Attribute) and isinstance(call.func.value, ast.Name) and call.func.value.id in self.module_aliases and \
+                (self.module_aliases[call.func.value.id], call.func.attr) in self.foreign:
+            return self.foreign[(self.module_aliases[call.func.value.id], call.func.attr)][0], False
         if isinstance(call.func, ast.Attribute) and isinstance(call.func.value, ast.Name) and host.args.args and call.func.value.id == host.args.args[0].arg \
                 and call.func.attr in self.methods and not (host.decorator_list):
             m = self.methods[call.func.attr]
@@ -1092,9 +1123,42 @@ class _InlineNewHelpers(_InlineMethods):
         try:
             res = self._expand(st, call, target, host, m, has_recv=has_recv, tail=tail, on_return=on_return, keep=keep)
             self.expanded.add(id(m))
+            self._import_globals_of(m)
             return res
         except Exception:
             return None if on_return is not None else [st]
+
+    def _import_globals_of(self, m):
+        """the body of a helper that lives in another module mentions the globals of THAT module: they are imported here under the same names"""
+        home = next(((mod, tree) for (mod, _n), (node, tree) in self.foreign.items() if node is m), None)
+        if home is None or home[0] == self.modname:
+            return
+        mod2, tree2 = home
+        bound2 = set()
+        for st in _toplevel(tree2.body):
+            if isinstance(st, (ast.FunctionDef, ast.ClassDef)):
+                bound2.add(st.name)
+            elif isinstance(st, ast.Assign):
+                bound2 |= {t.id for t in st.targets if isinstance(t, ast.Name)}
+            elif isinstance(st, (ast.Import, ast.ImportFrom)):
+                bound2 |= {(a.asname or a.name).split('.')[0] for a in st.names}
+        here = set()
+        for st in _toplevel(self.tree.body):
+            if isinstance(st, (ast.FunctionDef, ast.ClassDef)):
+                here.add(st.name)
+            elif isinstance(st, ast.Assign):
+                here |= {t.id for t in st.targets if isinstance(t, ast.Name)}
+            elif isinstance(st, (ast.Import, ast.ImportFrom)):
+                here |= {(a.asname or a.name).split('.')[0] for a in st.names}
+        local = {a.arg for a in m.args.posonlyargs + m.args.args + m.args.kwonlyargs} | {x.id for x in ast.walk(m) if isinstance(x, ast.Name) and isinstance(x.ctx, ast.Store)}
+        for x in ast.walk(m):
+            if isinstance(x, ast.Name) and isinstance(x.ctx, ast.Load) and x.id in bound2 and x.id not in local and x.id not in here and (mod2, x.id) not in self.synthetic_imports:
+                self.synthetic_imports.add((mod2, x.id))
+                imp = ast.ImportFrom(module=mod2, names=[ast.alias(name=x.id, asname=None)], level=0)
+                imp.lineno = imp.end_lineno = 1
+                imp.col_offset = imp.end_col_offset = 0
+                k = 1 if self.tree.body and isinstance(self.tree.body[0], ast.Expr) and isinstance(self.tree.body[0].value, ast.Constant) else 0
+                self.tree.body.insert(k, imp)
 
     def _expand_tested_result(self, st, nxt, host):
         import copy
@@ -1472,7 +1536,7 @@ def _propagate_temporaries(fn):
 
 
 class Module:
-    def __init__(self, name, relpath, src, reuse=None, tree=None):
+    def __init__(self, name, relpath, src, reuse=None, tree=None, foreign=None):
         self.name = name
         self.relpath = relpath
         self.src = src
@@ -1488,7 +1552,7 @@ class Module:
         self.lines = src.splitlines()
         self.tree = ast.fix_missing_locations(_Desugar().visit(tree if tree is not None else ast.parse(src, filename=relpath)))
         known = known_functions().get(relpath)
-        if known is not None and _InlineNewHelpers(self.tree, known).run():
+        if known is not None and _InlineNewHelpers(self.tree, known, foreign=foreign, modname=name, is_pkg=relpath.endswith('__init__.py')).run():
             ast.fix_missing_locations(self.tree)
         if any(isinstance(n, ast.ClassDef) and any(n.name == c for (c, _m) in INLINE_HOSTS) for n in self.tree.body):
             _InlineMethods(self.tree).run()
@@ -1614,13 +1678,26 @@ class Program:
                     pre = trees
         except SyntaxError as ex:
             raise AnalysisError('cannot parse: %s' % (ex,))
+        # new module-level functions of the changed files: a caller in ANOTHER module sees through them as well
+        foreign = {}
+        for rp, t in pre.items():
+            kn = known_functions().get(rp)
+            if kn is None:
+                continue
+            for st in _toplevel(t.body):
+                if isinstance(st, ast.FunctionDef) and st.name not in kn:
+                    foreign[(_modname(rp), st.name)] = (st, t)
+        if foreign and reuse is not None:
+            # callers may live in files that did not change
+            reuse = None
+            pre = {rp: pre[rp] if rp in pre else ast.parse(sources[rp], filename=rp) for rp in sorted(sources) if rp.endswith('.py')}
         for relpath in sorted(sources):
             if not relpath.endswith('.py'):
                 continue
             name = _modname(relpath)
             try:
                 mod = Module(name, relpath, sources[relpath],
-                             reuse.modules.get(name) if reuse is not None else None, tree=pre.get(relpath))
+                             reuse.modules.get(name) if reuse is not None else None, tree=pre.get(relpath), foreign=foreign)
             except SyntaxError as ex:
                 raise AnalysisError('cannot parse %s: %s' % (relpath, ex))
             self.modules[name] = mod
